@@ -297,7 +297,7 @@ func joinFilter(a []any, sep func(string) string) any {
 	for _, v := range a {
 		v = values.ToLiquid(v) // an element may be a Drop
 		if v != nil {
-			ss = append(ss, fmt.Sprint(v))
+			ss = append(ss, values.Sprint(v))
 		}
 	}
 	return strings.Join(ss, s)
